@@ -415,6 +415,8 @@ def r5(chk, ctx):
 
 
 def run(chk, ctx):
+    from . import generic
+    generic.definite_assignment(chk, ctx, ['rest_api', 'rest_api_asyncio'], "C10.DA")   # no local is read before it is bound (UnboundLocalError = an arbitrary exception)
     r1(chk, ctx)
     r2(chk, ctx)
     r3(chk, ctx)
